@@ -132,6 +132,27 @@ def revolute_case(j, e, alen, rng, sigma=1.0):
         ok = guard(j, "Twist3." + name, feat, detail, cid, fn)
         if ok is not None:
             check(j, bool(ok), "Twist3." + name, feat, mode, detail, cid)
+    # scalar multiples S*k: AFTER the geometry accessors have been used on the scaled twist (their values on a
+    # non-unit twist are outside the statement, which speaks of unit twists, and are not judged) the exponential of
+    # S*k still equals S.exp(k)
+    for kk in (2.5, -0.7):
+        cidk = ("Twist3*k", feat, kk)
+        Sk = guard(j, "Twist3.*", feat, detail, cidk, lambda: S * kk)
+        if Sk is None:
+            continue
+        for name in ("pole", "theta", "pitch", "line", "se3", "inv"):
+            try:
+                getattr(Sk, name)()
+            except Exception:  # noqa: BLE001
+                j.count("accessor_on_scaled_twist_raised")
+        th_k = guard(j, "Twist3(S*k).theta", feat, detail, ("Twist3(S*k).theta", feat), lambda: float(Sk.theta()))
+        if th_k is not None:        # theta() is the rotation magnitude: |k| for S*k (S a unit twist)
+            check(j, abs(th_k - abs(kk)) <= 1e-9, "Twist3(S*k).theta", feat, "theta-not-abs(k)", dict(detail, k=kk), ("Twist3(S*k).theta", feat))
+        Ek = guard(j, "Twist3.exp(k)", feat, detail, cidk, lambda: S.exp(kk).A)
+        Gk = guard(j, "(S*k).exp()", feat, detail, cidk, lambda: Sk.exp().A)
+        if Ek is not None and Gk is not None:
+            check(j, float(np.max(np.abs(Gk - Ek))) <= TOL * sc, "(S*k).exp()", feat, "differs-from-S.exp(k)-after-accessors",
+                  dict(detail, k=kk), cidk)
     cid = ("Twist3.line", feat)
     L = guard(j, "Twist3.line", feat, detail, cid, lambda: S.line())
     if L is not None:
